@@ -589,7 +589,7 @@ type RunOpts struct {
 	StartNS             int64
 	WatchdogS           int
 	NoUnlockPoints      bool
-	LoopHorizon         int // max `for` iterations between two visible operations (0 = 5e6)
+	LoopHorizon         int  // max `for` iterations between two visible operations (0 = 5e6)
 	EndWithMain         bool // the execution ends when the harness body returns (threads of the code under test may run for ever)
 }
 
